@@ -49,6 +49,11 @@ Section U.
     (w, mkCoM mass comdiv vel acc am dam).
 
   (* CalcZeroMomentPoint (as repaired: the plane passes through `point`) *)
+  (* the point of the plane (normal, point) about which the wrench (n0 about the origin, f) has no tangential moment *)
+  Definition zmp_point (normal point n0 f : V3) : V3 :=
+    let nf := v3dot O normal f in
+    let num := v3add O (v3cross O normal n0) (v3scale O (v3dot O normal point) f) in
+    mkV3 (odiv O (vx num) nf) (odiv O (vy num) nf) (odiv O (vz num) nf).
   Definition calc_zmp (M : Model) (w : WS) (q qd qdd : list T) (normal point : V3) (upd_kin : bool)
     : WS * V3 :=
     let w := if upd_kin then update_kinematics_custom O M w (Some q) (Some qd) (Some qdd) else w in
@@ -59,10 +64,7 @@ Section U.
     let h1 := st_applyAdj O Xc hdt in
     let h2 := svsub O h1 (svscale O mass (svof (v3zero O) (gravity M))) in
     let h3 := st_applyAdj O (st_inv O Xc) h2 in
-    let n0 := svang h3 in let f := svlin h3 in
-    let nf := v3dot O normal f in
-    let num := v3add O (v3cross O normal n0) (v3scale O (v3dot O normal point) f) in
-    (w, mkV3 (odiv O (vx num) nf) (odiv O (vy num) nf) (odiv O (vz num) nf)).
+    (w, zmp_point normal point (svang h3) (svlin h3)).
 
   Definition calc_potential_energy (M : Model) (w : WS) (q : list T) (upd_kin : bool) : WS * T :=
     let '(w, c) := calc_center_of_mass M w q (vzeros t0 (qdot_size M)) None upd_kin in
